@@ -66,6 +66,11 @@ def showRes : Res → String
 
 def showObs (o : Obs) : String := s!"{o.consumed} {if o.connected then 1 else 0} {showRes (maskRes o.res)}"
 
+/-- `<type> <size> <hash> ...` -/
+def parseDefs : List String → List Def
+  | t :: s :: h :: r => ⟨intOf t, natOf s, natOf h⟩ :: parseDefs r
+  | _ => []
+
 structure Case where
   id : String := ""
   cfg : Cfg := { hsize := 48, defs := [], ack := 2 }
@@ -78,11 +83,12 @@ structure Case where
 
 /-- the Spec of C08 on the implementation's observations, call by call, pre-states advanced by what the
     implementation itself consumed -/
-def propWalk (cfg : Cfg) : Pre → List Call → List Obs → Nat → String
-  | _, [], _, _ => "ok"
-  | p, .setSub sub :: cs, os, i => propWalk cfg { p with sub := sub } cs os i
-  | _, .read _ _ _ :: _, [], _ => "ok"      -- the harness stops a case after `blocked`
-  | p, .read tmo ack sync :: cs, o :: os, i =>
+def propWalk : Cfg → Pre → List Call → List Obs → Nat → String
+  | _, _, [], _, _ => "ok"
+  | cfg, p, .setSub sub :: cs, os, i => propWalk cfg { p with sub := sub } cs os i
+  | cfg, p, .setDefs defs :: cs, os, i => propWalk { cfg with defs := defs } p cs os i
+  | _, _, .read _ _ _ :: _, [], _ => "ok"      -- the harness stops a case after `blocked`
+  | cfg, p, .read tmo ack sync :: cs, o :: os, i =>
     if !p.wf cfg then "skip"
     else
       let a : Args := ⟨tmo, ack, sync⟩
@@ -236,6 +242,7 @@ def step (c : Case) (line : String) : Case × List String :=
   | "SUB" :: r => ({ c with sub := parseSub r }, [])
   | ["CALL", "read", t, a, s] => ({ c with calls := .read (parseTmo t) (a == "1") (s == "1") :: c.calls }, [])
   | "CALL" :: "sub" :: r => ({ c with calls := .setSub (parseSub r) :: c.calls }, [])
+  | "CALL" :: "defs" :: r => ({ c with calls := .setDefs (parseDefs r) :: c.calls }, [])
   | "OBS" :: r => ({ c with obs := parseObs r :: c.obs }, [])
   | ["END"] => ({}, finishCase c)
   | _ => (c, [])
